@@ -3,7 +3,8 @@
 (* Input: IOEnv.TRACE_FILE = JSON array of executions of the REAL policy     *)
 (* objects (happysimulator/components/rate_limiter/policy.py) recorded by    *)
 (* harness/families/c10.py.  Times are integer nanoseconds relative to the   *)
-(* trace's base instant (a multiple of the window for "fw"), all < 2^31.     *)
+(* trace's base instant (a multiple of the window for "fw", so window -1     *)
+(* exists and a boundary admit at relative 0 may belong to it), all < 2^31.   *)
 (*   [ id, pol ("tb"|"lb"|"sw"|"fw"|"ad"), mc (1 = run the exact model),     *)
 (*     g   guard band in ns (float vs exact arithmetic),                     *)
 (*     P   floor(1e9/rate) ns per token (tb, lb),  cc  capacity in ns of     *)
@@ -98,7 +99,7 @@ SwTuaSet(s, t, w) == LET lg == SwPr(s.log, t) IN
 NearB(t) == t % T.W <= G \/ t % T.W >= T.W - G
 Ks(t) == LET k == t \div T.W
              r == t % T.W
-         IN {k} \cup (IF r <= G /\ k > 0 THEN {k - 1} ELSE {}) \cup (IF r >= T.W - G THEN {k + 1} ELSE {})
+         IN {k} \cup (IF r <= G THEN {k - 1} ELSE {}) \cup (IF r >= T.W - G THEN {k + 1} ELSE {})
 FwRes(s, kk) == IF kk > s.win THEN [win |-> kk, cnt |-> 0] ELSE s
 FwAcqSet(s, t) == UNION { LET r == FwRes(s, kk) IN
                           IF r.cnt < T.N THEN {<<1, [r EXCEPT !.cnt = @ + 1]>>} ELSE {<<0, r>>} : kk \in Ks(t) }
@@ -120,7 +121,7 @@ TuaAny(s, t) == CASE T.pol = "tb" -> {TbRef(s, t)} [] T.pol = "lb" -> {s}
                   [] T.pol = "fw" -> {FwRes(s, kk) : kk \in Ks(t)}
                   [] OTHER -> {Dummy}
 InitS(tr) == CASE tr.pol = "tb" -> {[c |-> tr.ic, last |-> -1]} [] tr.pol = "lb" -> {[last |-> -1]}
-               [] tr.pol = "sw" -> {[log |-> <<>>]} [] tr.pol = "fw" -> {[win |-> -1, cnt |-> 0]}
+               [] tr.pol = "sw" -> {[log |-> <<>>]} [] tr.pol = "fw" -> {[win |-> -2, cnt |-> 0]}
                [] OTHER -> {Dummy}
 
 -----------------------------------------------------------------------------
@@ -128,7 +129,7 @@ Reset(i) ==
     /\ ti' = i /\ l' = 1 /\ adm' = <<>> /\ promise' = 0 /\ pz' = -1 /\ chain' = 0 /\ chainT' = -1
     /\ bad' = "" /\ mbad' = "" /\ mpos' = 0 /\ instT' = -1 /\ firstT' = -1 /\ pmin' = <<>>
     /\ kbad' = "" /\ kpos' = 0
-    /\ aw' = -1 /\ ac' = 0 /\ lastT' = 0
+    /\ aw' = -2 /\ ac' = 0 /\ lastT' = 0
     /\ IF i <= NT THEN S' = InitS(Traces[i]) /\ curPf' = Traces[i].p0 /\ curRu' = Traces[i].r0
                        /\ instMin' = Traces[i].p0
        ELSE S' = {} /\ curPf' = 0 /\ curRu' = 0 /\ instMin' = 0
@@ -137,7 +138,7 @@ Init ==
     /\ ti = 1 /\ l = 1 /\ adm = <<>> /\ promise = 0 /\ pz = -1 /\ chain = 0 /\ chainT = -1
     /\ bad = "" /\ mbad = "" /\ mpos = 0 /\ instT = -1 /\ firstT = -1 /\ pmin = <<>>
     /\ kbad = "" /\ kpos = 0
-    /\ aw = -1 /\ ac = 0 /\ lastT = 0
+    /\ aw = -2 /\ ac = 0 /\ lastT = 0
     /\ IF NT >= 1 THEN S = InitS(Traces[1]) /\ curPf = Traces[1].p0 /\ curRu = Traces[1].r0
                        /\ instMin = Traces[1].p0
        ELSE S = {} /\ curPf = 0 /\ curRu = 0 /\ instMin = 0
